@@ -31,7 +31,7 @@ CFG = dict(
                    ("tie:disturb:reconnect", 1000), ("reannounce:over-stale-entry", 800), ("reannounce:after-purge", 300),
                    ("reannounce:same-arc", 600), ("reannounce:equal-content-new-arc", 600)])),
     # release shards get their own seeds (seed_offset) so the two profiles do not replay identical inputs
-    quick=[e1("all", "c02", "debug", 2, 40), dict(e1("all", "c02", "release", 2, 40), seed_offset=500)],
+    quick=[e1("all", "c02", "debug", 2, 120), dict(e1("all", "c02", "release", 2, 120), seed_offset=500)],
     thorough=[e1("matrix", "c02", "debug", 2, 200, part="matrix"),
               dict(e1("matrix", "c02", "release", 2, 200, part="matrix"), seed_offset=500),
               e1("perm", "c02", "debug", 2, 200, part="perm"),
